@@ -1,5 +1,5 @@
 //@PROBE file=src/utils/kalman/kalman_2d_point_vec.rs test=verif_probe_kalman_point_c07 clauses=kalman_point
-//@BOUND point filter: 40 pseudo-random trajectories of 40..=300 steps (coordinates 1..1e4, weights {1/20,1/160}, {0.1,1/80}, {0.5,0.05}, steps without a measurement) against an independent f64 textbook filter (mean 2e-3 rel + 2e-3 abs, distance 1% + 1e-3, covariance SPD); vector filter: 200 vectors of 1..=6 points whose states have DIFFERENT ages/histories: predict / update / distance / cost of the vector must equal, bit for bit, the point filter applied to each point alone, in any order of the points
+//@BOUND point filter: 40 pseudo-random trajectories of 40..=300 steps (coordinates 1..1e4; plus objects standing still on exactly representable coordinates for 8 frames - zero innovation - and then accelerating, with the distance of offset points compared at every step; weights {1/20,1/160}, {0.1,1/80}, {0.5,0.05}, steps without a measurement) against an independent f64 textbook filter (mean 2e-3 rel + 2e-3 abs, distance 1% + 1e-3, covariance SPD); vector filter: 200 vectors of 1..=6 points whose states have DIFFERENT ages/histories: predict / update / distance / cost of the vector must equal, bit for bit, the point filter applied to each point alone, in any order of the points
 #[cfg(test)]
 mod verif_probe_kalman_point_c07 {
     // Bounded stand-in for the point / point-vector clauses of C07 (textbook mean, SPD, Mahalanobis distance, the vector
@@ -77,6 +77,32 @@ mod verif_probe_kalman_point_c07 {
                 if !((dg - dw).abs() <= 1e-2 * dw.abs() + 1e-3) { failures.push(format!("{} step={}: kalman_point.distance_is_squared_mahalanobis: distance {} but the reference gives {}", ctx, step, dg, dw)); break; }
                 s = f.update(&s, &Point2::new(x, y)); r.update(x as f64, y as f64);
                 compare(&ctx, "update", step, &s, &r, &mut failures);
+            }
+        }
+        // ---- an object that stands still on exactly representable coordinates (every measurement is bit-equal to the projected
+        // mean, so the innovation is exactly zero) for 8 frames and then accelerates: the covariance must shrink as in the textbook
+        // filter, which shows in the distance of an offset point at every step and in the means once the object moves
+        for (k, (x0, y0)) in [(128.0f32, 320.0f32), (5.0, 7.0), (4096.0, 2048.5)].iter().enumerate() {
+            for (wp, wv) in [(1.0f32 / 20.0, 1.0f32 / 160.0), (0.1, 1.0 / 80.0), (0.5, 0.05)] {
+                let f = Point2DKalmanFilter::new(wp, wv);
+                let ctx = format!("PROBE input: kalman point standing still at ({}, {}) for 8 frames, then accelerating; weights=({}, {})", x0, y0, wp, wv);
+                let mut s = f.initiate(&Point2::new(*x0, *y0));
+                let mut r = Ref::initiate(wp as f64, wv as f64, *x0 as f64, *y0 as f64);
+                let (mut x, mut y) = (*x0, *y0);
+                let before = failures.len();
+                for step in 1..20usize {
+                    if failures.len() > before { break; }
+                    cases += 1; nontrivial += (k == 0) as u64;
+                    if step > 8 { let a = (step - 8) as f32; x += 0.75 * a; y -= 0.5 * a; }
+                    s = f.predict(&s); r.predict();
+                    compare(&ctx, "predict", step, &s, &r, &mut failures);
+                    for (px, py) in [(x, y), (x + 3.0 * wp, y - 2.0 * wp), (x - 0.25, y + 4.0 * wp)] {
+                        let (dg, dw) = (f.distance(&s, &Point2::new(px, py)) as f64, r.distance(px as f64, py as f64));
+                        if !((dg - dw).abs() <= 1e-2 * dw.abs() + 1e-3) { failures.push(format!("{} step={}: kalman_point.distance_is_squared_mahalanobis: distance of ({}, {}) is {} but the reference gives {}", ctx, step, px, py, dg, dw)); break; }
+                    }
+                    s = f.update(&s, &Point2::new(x, y)); r.update(x as f64, y as f64);
+                    compare(&ctx, "update", step, &s, &r, &mut failures);
+                }
             }
         }
         // ---- the vector filter treats its points independently (states of different ages)
